@@ -898,6 +898,26 @@ theorem spec_ata_membership_bootstrapD {t : List Cell} {n : Int} {field : Option
   spec_ata_membership_bootstrapD_partial h hk hs hinj hlay
     (fun _ hks _ => columnsInRatios_of_regular (hreg _ (List.getElem_mem hks)) _ _)
 
+/-- **spec_ata_membership_bootstrapD_layout.** `spec_ata_membership_bootstrapD` with `RegularLags.uniq` DERIVED from
+`SliceLayout` (`uniq_of_layout`, via `rows_lag_lt`): beyond well-formed slices the only regularity hypotheses are the two
+fields of `NoSkipLags` — `noSkip` (no period skips a lag) and `clipEnds` (still not derived from the layout). Here
+`SliceLayout` is asked of every slice. -/
+theorem spec_ata_membership_bootstrapD_layout {t : List Cell} {n : Int} {field : Option (List String)}
+    {D : Nat → Nat → Draws} {reps : List (List Cell)} (h : bootstrapD t n field D = .ok reps)
+    (hk : kindsConsistent t = true) (hs : t.Pairwise (fun a b => Cell.le a b)) (hinj : ∀ i, TagInjective t i)
+    (hlay : ∀ s ∈ (Triangle.slices t).map (·.2), SliceLayout s ∧ ∀ c ∈ s, c.values.keys.Nodup)
+    (hreg : ∀ s ∈ (Triangle.slices t).map (·.2), NoSkipLags s) :
+    ∀ i (hi : i < reps.length), Spec.C17.ataMembershipOk t reps[i] i field = true :=
+  spec_ata_membership_bootstrapD h hk hs hinj (fun s hs _ => hlay s hs)
+    (fun s hs => regular_of_layout (hlay s hs).1 (hreg s hs))
+
+/-- **uniq_period_lag.** In a well-formed slice a period has at most one cell at a development lag -/
+theorem uniq_period_lag {s : List Cell} (H : SliceLayout s) :
+    ∀ x ∈ s, ∀ y ∈ s, (x.ps, x.pe) = (y.ps, y.pe) → x.devLag = y.devLag → x = y := uniq_of_layout H
+
+/-- `NoSkipLags` has a closed inhabitant -/
+theorem no_skip_lags_instance : NoSkipLags exSquare := ex_sq_noskip
+
 /-- **safe_ata_division_agrees.** The model's `_safe_ata_division` (`safeAtaDiv`, refusing arrays) and the Spec's
 independent `safeDiv` agree wherever the model succeeds -/
 theorem safe_ata_division_agrees {x y : Option Val} {r : Rat} (h : safeAtaDiv x y = .ok r) :
